@@ -71,6 +71,11 @@ def programs(tier="thorough"):
     # the operand of go is evaluated by the spawner (its effects happen before the spawner's next statement)
     mk = ("mk", [("tag", STRING)], TFn([], UNIT), Block([println(Var("tag"))], Lam([], Block([println(Str("run"))], Unit))))
     add("operand-evaluated-by-spawner", [Stmt(Go(Call("mk", Str("made")))), pr("after")], [mk])
+    # the operand is a plain function value: a top-level function, and a parameter of function type (no closure environment)
+    worker = ("worker", [], UNIT, Block([println(Str("w"))], Unit))
+    spawn = ("spawn", [("f", TFn([], UNIT))], UNIT, Block([Stmt(Go(Var("f")))], Unit))
+    add("plain-function-operand", [Stmt(Go(FnRef("worker"))), pr("m")], [worker])
+    add("function-parameter-operand", [Stmt(Call("spawn", FnRef("worker"))), pr("m")], [worker, spawn])
     # go inside a loop: three activations
     add("three-activations", [Let("c", Call("ref", Int(0))), Let("i", Call("ref", Int(0))),
                               Stmt(While(Bin("<", rget("i"), Int(3)), Block([Stmt(Go(Lam([], Block([rset("c", Bin("+", rget("c"), Int(1)))], Unit)))),
